@@ -18,10 +18,10 @@ from ..pool import pmap
 
 META = {
     "level": "model_checking",
-    "text": "TLC checks the footnote model (registries filled during rendering, then SortFootnotes, docutils' numbering, resolution, the unreferenced detector and CollectFootnotes as separate actions) against the declarative numbering/linking/collection clauses for every arrangement within the bound and all four flag settings; every behaviour is replayed through publish_doctree and random long arrangements are validated as traces by TLC.",
+    "text": "TLC checks the footnote model (registries filled during rendering, then SortFootnotes, docutils' numbering, resolution, the unreferenced detector and CollectFootnotes as separate actions) against the declarative numbering/linking/collection clauses for every arrangement within the bound and all four flag settings; every behaviour is replayed through publish_doctree and random long arrangements are validated as traces by TLC. The order of that chain is itself a model (Pipeline: docutils' priority scheduler over the transforms registered in this tree, priorities extracted at check time) checked against the stage order the footnote and anchor models rely on, and bound to recorded Transformer runs.",
     "note": "Bound: arrangements <= 4 (quick) / 5 (thorough) top-level blocks over labels {a, b, 1, 2} (reference paragraph or definition) x footnote_sort x footnote_transition. docutils front end. With sorting off docutils numbers auto footnotes in definition order; only injectivity, compactness and kept numeric labels are claimed there. References whose label has no definition are left to docutils (no claim except that others are undisturbed).",
     "technique": "TLA+ spec + TLC exhaustive check; spec-behaviour replay into the code; TLC batch trace validation",
-    "specs": ["Footnotes", "FootnotesTrace"],
+    "specs": ["Footnotes", "FootnotesTrace", "Pipeline", "PipelineTrace"],
 }
 
 INVS = ["KeepFirst", "LabelsDistinct", "NumericKept", "FirstRefOrder", "Compact", "Linked", "Unreferenced", "Collected", "InPlace"]
@@ -162,6 +162,9 @@ def run(ctx):
         if rc.coverage.get(act, (0, 0))[0] == 0:
             raise tlc.MachineryFailure(f"Footnotes: action {act} never taken (vacuous)")
     ctx.add_tlc("Footnotes_cov", rc)
+    # the order of the transform chain the model is written in, for the priorities in this tree
+    from .. import pipeline
+    pipeline.check(ctx, "C11")
     recs = r.records + [x for x in r2.records if any(e[0] in ("hr", "head") for e in x["evs"])]
     outs = pmap(observe, recs, chunksize=64)
     for rec, o in zip(recs, outs):
